@@ -252,15 +252,16 @@ Qed.
 
 Lemma wf_mirror f root : wf_forest f root -> wf_forest (mirror f) root.
 Proof.
-  intros [H1 H2 H3 H4 H5 H6 H7 H8]. constructor; cbn [mirror fkids flab fnext].
-  - exact H1.
+  intros Hwf.
+  pose proof (wf_kids_lt f root Hwf) as H2. pose proof (wf_kids_nodup f root Hwf) as H3.
+  pose proof (wf_uparent f root Hwf) as H4. pose proof (wf_root_top f root Hwf) as H5.
+  pose proof (wf_comment f root Hwf) as H7.
+  destruct Hwf. constructor; cbn [mirror fkids flab fnext]; try assumption.
   - intros p c Hp Hc. apply in_rev in Hc. eapply H2; eauto.
   - intros p Hp. apply NoDup_rev, H3, Hp.
   - intros p q c Hp Hq Hc1 Hc2. apply in_rev in Hc1, Hc2. eapply H4; eauto.
   - intros p Hp Hin. apply in_rev in Hin. eapply H5; eauto.
-  - exact H6.
-  - Show. intros n Hn Hc. destruct (H7 n Hn Hc) as [E1 E2]. rewrite E1. split; [reflexivity|exact E2].
-  - exact H8.
+  - intros n Hn Hc. destruct (H7 n Hn Hc) as [E1 E2]. rewrite E1. split; [reflexivity|exact E2].
 Qed.
 
 Lemma desc_mirror f a n : desc (mirror f) a n <-> desc f a n.
